@@ -22,6 +22,8 @@ import (
 	"luahelper-lsp/langserver/check/annotation/annotatelexer"
 	"luahelper-lsp/langserver/check/annotation/annotateparser"
 	"luahelper-lsp/langserver/check/compiler/lexer"
+	"luahelper-lsp/langserver/check/compiler/parser"
+	"sort"
 )
 
 func c16b(b bool) string {
@@ -218,7 +220,60 @@ func c16Result(frag annotateast.AnnotateFragment, errs []annotatelexer.ParseAnno
 	return "stats=[" + strings.Join(ss, ";;") + "] lines=[" + strings.Join(ls, ",") + "] errs=[" + strings.Join(es, ";") + "]"
 }
 
+// c16.file: the lines are embedded in a Lua file ("--" + line, then a statement); the file goes through the real
+// Lua parser, every head comment block through ParseCommentFragment.  Error columns are printed relative to the
+// column the Lua lexer recorded for the comment line, so the answer is comparable with c16.fragment.
+func c16File(field string) string {
+	var src strings.Builder
+	for _, h := range strings.Split(field, ",") {
+		src.WriteString("--")
+		src.Write(unhex(h))
+		src.WriteString("\n")
+	}
+	src.WriteString("local x = 1\n")
+	p := parser.CreateParser([]byte(src.String()), "c16.lua")
+	_, cm, _ := p.BeginAnalyze()
+	keys := []int{}
+	for k := range cm {
+		keys = append(keys, k)
+	}
+	sort.Ints(keys)
+	ss, ls, es := []string{}, []string{}, []string{}
+	for _, k := range keys {
+		ci := cm[k]
+		if !ci.HeadFlag {
+			continue
+		}
+		col := map[int]int{}
+		for _, cl := range ci.LineVec {
+			col[cl.Line] = cl.Col
+		}
+		fr, errs := annotateparser.ParseCommentFragment(ci)
+		for _, s := range fr.Stats {
+			ss = append(ss, c16Stat(s))
+		}
+		for _, l := range fr.Lines {
+			ls = append(ls, strconv.Itoa(l))
+		}
+		for _, e := range errs {
+			c0 := col[e.ErrLoc.StartLine]
+			es = append(es, fmt.Sprintf("%d:%d:%d:%s:%d:%d", e.ErrLoc.StartLine, int(e.ErrType), int(e.NeedKind), c16h(e.ErrStr),
+				e.ErrLoc.StartColumn-c0, e.ErrLoc.EndColumn-c0))
+		}
+	}
+	return "stats=[" + strings.Join(ss, ";;") + "] lines=[" + strings.Join(ls, ",") + "] errs=[" + strings.Join(es, ";") + "]"
+}
+
 func init() {
+	register("c16.file", func(line string) string { return c16File(strings.Fields(line)[0]) })
+	// the example lines of docs/manual/annotate.md: accepted = one statement, no annotation warning
+	register("c16.doc", func(line string) string {
+		fr, errs := c16Fragment(strings.Fields(line)[0])
+		if len(errs) == 0 && len(fr.Stats) == 1 && len(fr.Lines) == 1 {
+			return "accepted"
+		}
+		return fmt.Sprintf("rejected stats=%d errs=%d", len(fr.Stats), len(errs))
+	})
 	// one or several comment lines through ParseCommentFragment, full observable
 	frag := func(line string) string {
 		f := strings.Fields(line)
